@@ -92,6 +92,15 @@ pub fn eval(out: &mut Out, op: &str, args: &[&str]) -> Option<String> {
                 Ok(Ok(v)) => format!("ok ({})", if op == "nat.checkU" { sorted_canon(&v) } else { sexp::val(&v, true) }),
             })
         }
+        "nat.bounded" => {
+            let bytes = sexp::unhx(args.get(1)?)?;
+            let dec = e.decode;
+            Some(match guarded(move || dec(&bytes)) {
+                Err(_) => "panic".into(),
+                Ok(Err(_)) => "err".into(),
+                Ok(Ok(v)) => format!("ok ({})", sexp::val(&v, true)),
+            })
+        }
         "nat.decode" | "nat.decodeU" => {
             let bytes = sexp::unhx(args.get(1)?)?;
             let env = sexp::to_env(&sexp::parse(args.get(2)?)?)?;
@@ -189,14 +198,48 @@ fn is_unordered(name: &str) -> bool {
 }
 
 fn hist(ctx: &mut Ctx) -> String {
+    let es = entries();
+    let fam: Vec<usize> = es
+        .iter()
+        .enumerate()
+        .filter(|(_, e)| ["List", "Tree", "Forest", "Generic", "Shape", "Pair"].iter().any(|k| e.name.contains(k)))
+        .map(|(i, _)| i)
+        .collect();
     let k = ctx.rng.range(0, 5);
-    (0..k).map(|_| ctx.rng.below(4000).to_string()).collect::<Vec<_>>().join(",")
+    (0..k)
+        .map(|_| {
+            if ctx.rng.chance(1, 2) && !fam.is_empty() {
+                // an operation (type derivation / round trip / reset / failing decode) on a recursive family member
+                let i = *ctx.rng.pick(&fam);
+                let kind = *ctx.rng.pick(&[0usize, 0, 0, 1, 3]);
+                (i + kind * es.len()).to_string()
+            } else {
+                ctx.rng.below(4 * es.len() as u64).to_string()
+            }
+        })
+        .collect::<Vec<_>>()
+        .join(",")
 }
 
 /// decode `bytes` at corpus entry `e`: emit the right op depending on host limits / duplicates
 fn emit_decode(ctx: &mut Ctx, e: &Entry, env: &TypeEnv, ty: &Type, bytes: &[u8]) {
     let (b2, e2, t2) = (bytes.to_vec(), env.clone(), ty.clone());
     let untyped = guarded(move || IDLArgs::from_bytes_with_types(&b2, &e2, &[t2]));
+    if e.name.starts_with("BoundedVec") {
+        // bounded vectors must accept exactly the vectors within their limits
+        let within = matches!(&untyped, Ok(Ok(u)) if (e.host_ok)(&u.args[0]));
+        ctx.emit(
+            &format!("nat.bounded\t{}\t{}\t{}\t{}\t{}", e.name, sexp::hx(bytes), sexp::env(env), sexp::ty(ty), within),
+            true,
+        );
+        return;
+    }
+    // fixed-size arrays are only compared on messages whose vector has the matching length (the property's
+    // quantifier); a message that does not even decode untyped cannot be classified and is left out
+    if e.name.starts_with('[') && !matches!(&untyped, Ok(Ok(_))) {
+        ctx.emit(&format!("nat.hl\t{}\t{}", e.name, sexp::hx(bytes)), false);
+        return;
+    }
     if let Ok(Ok(u)) = &untyped {
         if !(e.host_ok)(&u.args[0]) || !(e.no_dups)(&u.args[0]) {
             ctx.emit(&format!("nat.hl\t{}\t{}", e.name, sexp::hx(bytes)), false);
@@ -212,6 +255,10 @@ pub fn run_c01(ctx: &mut Ctx) {
     ctx.out.stat(&format!("corpus-types:{}", es.len()));
     let per = if ctx.thorough { 400 } else { 12 };
     for e in es.iter() {
+        if e.name.starts_with("BoundedVec") {
+            // bounded vectors are about their limits (C08), their generator goes beyond them on purpose
+            continue;
+        }
         for _ in 0..per {
             let h = hist(ctx);
             // the generating side runs under a history too
@@ -254,6 +301,8 @@ pub fn run_c08(ctx: &mut Ctx) {
     // messages of every corpus type …
     let mut msgs: Vec<(usize, Vec<u8>)> = vec![];
     for (i, e) in es.iter().enumerate() {
+        // bounded vectors: many more values, the generator aims at the limits
+        let per = if e.name.starts_with("BoundedVec") { per * 12 } else { per };
         for _ in 0..per {
             let mut r = Rng(ctx.rng.next());
             let rt = e.roundtrip;
